@@ -308,8 +308,14 @@ def gen_class(rng, allow_neg=True):
         if r < 0.45:
             items.append(("c", rng.choice(string.ascii_letters + string.digits + "_-.^]\\[ $*+")))
         elif r < 0.8:
-            pool = rng.choice((string.ascii_lowercase, string.ascii_uppercase, string.digits))
-            a, b = sorted(rng.sample(pool, 2))
+            if rng.random() < 0.25:
+                # arbitrary printable span, up to and beyond the last printable character
+                lo = rng.choice("!#%0:AZ_amz{")
+                hi = rng.choice("/9@Z`z~\x7f")
+                a, b = (lo, hi) if lo <= hi else (hi, lo)
+            else:
+                pool = rng.choice((string.ascii_lowercase, string.ascii_uppercase, string.digits))
+                a, b = sorted(rng.sample(pool, 2))
             if rng.random() < 0.15:
                 b = a
             items.append(("r", a, b))
@@ -319,8 +325,8 @@ def gen_class(rng, allow_neg=True):
             items.append(("w",))
     neg = allow_neg and rng.random() < 0.3
     c = Class(items, neg)
-    if neg and c.candidates_left() == 0:  # cannot happen with these pools, kept as a guard
-        c = Class(items[:1], True)
+    if neg and c.candidates_left() == 0:
+        c = Class([("c", "a")], True)
     return c
 
 
